@@ -1,13 +1,13 @@
 \* Template: bin/check substitutes the @@..@@ fields (checks/c07.py CONFIGS). By hand, e.g.
-\*   sed -e 's/@@NC@@/3/;s/@@OPS@@/2/;s/@@BACKEND@@/"etcd"/;s/@@LIMIT@@/10/;s/@@MAXERR@@/1/' \
-\*       -e 's/@@SECONDARY@@/"none"/;s/@@DELETE@@/FALSE/;s/@@EMIT@@/FALSE/;s/@@INV@@//' MC.cfg > MC_x.cfg
+\*   sed -e 's/@@NC@@/3/;s/@@OPS@@/2/;s/@@BACKENDS@@/{"consul","etcd","memberlist"}/;s/@@LIMIT@@/10/;s/@@MAXERR@@/1/' \
+\*       -e 's/@@SECONDARIES@@/{"none"}/;s/@@DELETE@@/FALSE/;s/@@EMIT@@/FALSE/;s/@@INV@@//' MC.cfg > MC_x.cfg
 CONSTANTS
   NC = @@NC@@
   OpsPer = @@OPS@@
-  Backend = @@BACKEND@@
+  Backends = @@BACKENDS@@
   Limit = @@LIMIT@@
   MaxErr = @@MAXERR@@
-  Secondary = @@SECONDARY@@
+  Secondaries = @@SECONDARIES@@
   WithDelete = @@DELETE@@
   Emit = @@EMIT@@
 INIT Init
